@@ -15,7 +15,7 @@ LEVEL = "exploration"
 ANCHORS = ["contextlib.py"]
 RULE = ("(1) stacks: every stack of 0..3 entries (quick; 0..4 thorough sample + full 0..3) over {async CM, sync CM, "
         "pushed async exit, pushed sync exit, callback with args} x {falsy, truthy, raise new, raise new only while "
-        "handling} x block {normal, raises} is built once as an ExitStack and once as real nested async-with/with "
+        "handling; sampled stacks also: raise a non-Exception BaseException} x block {normal, raises} is built once as an ExitStack and once as real nested async-with/with "
         "statements (the language is the reference); the log of exit invocations with the exception each received, "
         "callback arguments, and the outcome (suppressed / which exception object propagates) must be equal; a "
         "sample also with suspending enters/exits. (2) histories over {register, failing enter, aclose, pop_all, "
@@ -29,6 +29,8 @@ EXHAUSTIVE = {"quick": True, "thorough": True}
 
 KINDS = ["acm", "scm", "apush", "spush", "cb"]
 BEHS = ["falsy", "truthy", "raise", "raise_if_exc"]
+# sampled in addition to the enumerated behaviours: exits that raise a BaseException which is not an Exception
+BEHS_EXTRA = BEHS + ["raise_base", "raise_base_if_exc"]
 FALSY = [None, False, 0, ""]
 TRUTHY = [True, 1, "y"]
 N_HIST = {"quick": 6000, "thorough": 200000}
@@ -36,6 +38,14 @@ N_STACK4 = {"quick": 3000, "thorough": 320000}
 
 
 class E(Exception):
+    def __init__(self, n):
+        self.n = n
+        super().__init__(n)
+
+
+class EB(BaseException):
+    """An exit handler may also fail with a BaseException that is not an Exception."""
+
     def __init__(self, n):
         self.n = n
         super().__init__(n)
@@ -52,7 +62,7 @@ def cases(tier, seed, shard, nshards):
     rng = random.Random(f"C14-{seed}-{shard}")
     for _ in range(N_STACK4[tier] // nshards):
         n = rng.choice([4, 4, 5, 3, 2])
-        yield {"kind": "stack", "spec": [[rng.choice(KINDS), rng.choice(BEHS)] for _ in range(n)],
+        yield {"kind": "stack", "spec": [[rng.choice(KINDS), rng.choice(BEHS_EXTRA)] for _ in range(n)],
                "body": rng.random() < 0.6, "susp": rng.choice([0, 1, 1, 2])}
     # histories: enumerated up to length 4 over a small alphabet, random beyond
     alphabet = [["reg", "acm"], ["reg", "cb"], ["aclose", 0], ["pop_all", 0], ["block", 0, False], ["block", 0, True],
@@ -101,6 +111,12 @@ def mk_entry(kind, beh, i, log, susp, choice):
             if ev is not None:
                 raise E(f"h{i}")
             return None
+        if beh == "raise_base":
+            raise EB(f"b{i}")
+        if beh == "raise_base_if_exc":
+            if ev is not None:
+                raise EB(f"bh{i}")
+            return None
 
     class ACM:
         async def __aenter__(self):
@@ -140,6 +156,8 @@ def mk_entry(kind, beh, i, log, susp, choice):
             log.append(("cb", i, args, tuple(kw.items())))
             if beh in ("raise", "raise_if_exc"):
                 raise E(f"c{i}")
+            if beh.startswith("raise_base"):
+                raise EB(f"cb{i}")
             return True  # callbacks can never suppress
 
         return cb
@@ -209,7 +227,7 @@ def run_stack(case, stats):
     try:
         drive(nest(0))
         r1 = ("ok",)
-    except E as x:
+    except (E, EB) as x:
         r1 = ("raise", x.n, x is body_exc1)
 
     # --- ExitStack ----------------------------------------------------------------------
@@ -239,7 +257,7 @@ def run_stack(case, stats):
     try:
         drive(st())
         r2 = ("ok",)
-    except E as x:
+    except (E, EB) as x:
         r2 = ("raise", x.n, x is body_exc2)
     stats["stacks"] += 1
     stats[f"stack_size_{min(n, 5)}"] += 1
@@ -247,6 +265,8 @@ def run_stack(case, stats):
         stats["suppressed_body_exception"] += 1
     if r1[0] == "raise" and not r1[2]:
         stats["replaced_exception"] += 1
+    if any(b.startswith("raise_base") for _, b in spec):
+        stats["stacks_with_baseexception_exit"] += 1
     if any(ev[0] == "exit" and ev[2] is None for ev in l1) and body:
         stats["exit_saw_none_after_suppression"] += 1
     viols = []
@@ -459,7 +479,8 @@ def run_case(case, stats: Counter):
 
 def finish(stats, tier):
     for need in ("stacks", "suppressed_body_exception", "replaced_exception", "exit_saw_none_after_suppression",
-                 "histories_with_repeated_unwind", "histories_with_pop_all", "oracle_selftest"):
+                 "histories_with_repeated_unwind", "histories_with_pop_all", "oracle_selftest",
+                 "stacks_with_baseexception_exit"):
         if not stats.get(need):
             return f"deciding counter {need} is zero"
     return None
